@@ -60,6 +60,7 @@ class Ctl:
         self.py_writes = 0
         self.bufsize = None
         self.fired_at = None
+        self.dead = False
 
     def tag(self, path):
         return self.tags.get(os.path.abspath(path))
@@ -67,6 +68,10 @@ class Ctl:
     def fire(self, act):
         """the planned primitive: raise OSError or kill the process"""
         if act['mode'] == 'crash':
+            if self.plan.get('sim'):
+                # simulated kill (no fork): from here on no primitive reaches the file system
+                self.dead = True
+                raise Crash()
             os._exit(77)
         self.fired = True
         self.fired_at = len(self.events)
@@ -77,6 +82,8 @@ class Ctl:
     def at(self, kind, tag):
         """called BEFORE primitive number len(events) takes effect; returns the action
         {mode, done, prefix} if this primitive is the planned one"""
+        if self.dead:
+            return None
         idx = len(self.events)
         self.events.append([kind, tag, None])
         if kind == 'open_rw':
@@ -103,6 +110,8 @@ class FaultyFileIO(io.FileIO):
 
     def write(self, b):
         b = bytes(b)
+        if CTL.dead:
+            return len(b)
         if CTL.sticky_on is not None and CTL.sticky_on == self._tag:
             CTL.events.append(['write', self._tag, 0])
             raise OSError(errno.ENOSPC, 'injected sticky fault')
@@ -129,6 +138,8 @@ class FaultyFileIO(io.FileIO):
         return n
 
     def truncate(self, size=None):
+        if CTL.dead:
+            return size
         act = CTL.at('truncate', self._tag)
         CTL.events[-1][2] = size
         if act is not None:
@@ -150,6 +161,8 @@ def faulty_open(path, mode='r', *args, **kw):
     tag = CTL.tag(path) if CTL.active else None
     if tag is None:
         return io.open(path, mode, *args, **kw)
+    if CTL.dead:
+        raise Crash()
     kind = {'w': 'create', 'ab': 'open_append', 'wb': 'open_trunc', 'r+b': 'open_rw'}[mode]
     act = CTL.at(kind, tag)
     if act is not None and not act['done']:
@@ -232,6 +245,8 @@ def faulty_remove(path):
     tag = CTL.tag(path) if CTL.active else None
     if tag is None:
         return os.remove(path)
+    if CTL.dead:
+        return None
     act = CTL.at('unlink', tag)
     if act is not None:
         if act['done']:
@@ -430,8 +445,19 @@ def run_case(case):
             run = run_plan(d, rec, newrec, A, J, plan, before, bufsize, prefix, restart)
             runs.append(run)
             if how and case.get('two_level', True):
-                for p2 in second_level(plan, run, how):
-                    runs.append(run_plan(d, rec, newrec, A, J, p2, before, bufsize, prefix, restart))
+                for n2, p2 in enumerate(second_level(plan, run, how)):
+                    if case.get('kill') == 'sim':
+                        # simulated kill; every 7th one is also done for real (fork + _exit) and compared
+                        r2 = run_plan(d, rec, newrec, A, J, dict(p2, sim=True), before, bufsize, prefix, restart)
+                        if n2 % 7 == 0:
+                            r3 = run_plan(d, rec, newrec, A, J, p2, before, bufsize, prefix, restart)
+                            r2['real_kill_agrees'] = (r3['outcome'] == r2['outcome'] and r3['after'] == r2['after']
+                                                      and r3['refuses'] == r2['refuses'])
+                        r2['plan'] = p2
+                        r2['sim'] = True
+                        runs.append(r2)
+                    else:
+                        runs.append(run_plan(d, rec, newrec, A, J, p2, before, bufsize, prefix, restart))
         if case.get('slim'):
             for run in runs:
                 run.pop('events', None)
@@ -447,7 +473,7 @@ def run_plan(d, rec, newrec, A, J, plan, before, bufsize, prefix, restart):
     restore(d, before)
     newrec.block_file.seek(0)
     out = {'plan': plan}
-    if plan['mode'] == 'crash' or plan.get('crash2'):
+    if (plan['mode'] == 'crash' or plan.get('crash2')) and not plan.get('sim'):
         rfd, wfd = os.pipe()
         pid = os.fork()
         if pid == 0:
@@ -478,6 +504,8 @@ def run_plan(d, rec, newrec, A, J, plan, before, bufsize, prefix, restart):
         except OSError as e:
             out['outcome'] = 'oserror'
             out['exc'] = type(e).__name__
+        except Crash:
+            out['outcome'] = 'crashed'
         except Exception as e:        # anything else escaping write_record
             out['outcome'] = 'other:' + type(e).__name__
         finally:
